@@ -40,6 +40,7 @@ import GraphiqModel.Proofs.MetricsHistIso
 import GraphiqModel.Proofs.MetricsHistEdits
 import GraphiqModel.Proofs.MetricsHistInsert
 import GraphiqModel.Proofs.MetricsHistFuse
+import GraphiqModel.Proofs.MetricsHistEmit
 import GraphiqModel.Properties.C12
 namespace Graphiq.C18
 open Graphiq Graphiq.Dag Graphiq.Metrics
@@ -75,6 +76,18 @@ theorem emitter_count_eq_inputs {c : Dag} (h : DagInv c) :
     Metrics.emitterCount c = (c.nodeIds.filter (fun n => match n with | .inp r => r.ty = .e | _ => false)).length := by
   obtain ⟨P, g⟩ := h
   exact (g.inv.input_count .e).symm
+
+/-- **`CircuitEmitterCount` = the op-list specification** for every circuit built by `add`: the number of emitter registers of
+    `CircuitDAG(ne, np, nc)` after adding the list, an emitter register being created exactly when an operation names the next free
+    index (continuous numbering, registers of an operation visited in the sorted order of the code) -/
+theorem emitter_count_eq_spec (ne np nc : Nat) (seq : List Op) (hwf : ∀ op ∈ seq, OpWF op) (hok : (build ne np nc seq).2 = none) :
+    Metrics.emitterCount (build ne np nc seq).1 = Spec.emitterCount ne seq :=
+  emitterCount_build ne np nc seq hwf hok
+
+/-- `CircuitDAG(ne, np, nc)` has exactly `ne`, `np`, `nc` registers of the three types -/
+theorem fresh_circuit_register_counts (ne np nc : Nat) :
+    (Dag.init ne np nc).regs .e = ne ∧ (Dag.init ne np nc).regs .p = np ∧ (Dag.init ne np nc).regs .c = nc :=
+  init_regs ne np nc
 
 /-- hypotheses on an operation list: well-formed operations as graphiq constructs them (no user labels, at most two
     quantum registers, wrappers wrap base gate classes) -/
